@@ -132,12 +132,14 @@ func (c *Cluster) handleListOffsets(creq *clientReq) (kmsg.Response, error) {
 						sp.ErrorCode = kerr.CorruptMessage.Code
 						continue
 					}
+					var found bool
 					err = forEachBatchRecord(batch.RecordBatch, func(rec kmsg.Record) error {
 						timestamp := batch.FirstTimestamp + rec.TimestampDelta64
 						offset := batch.FirstOffset + int64(rec.OffsetDelta)
-						if timestamp <= rp.Timestamp {
+						if !found && timestamp >= rp.Timestamp {
 							sp.Offset = offset
 							sp.Timestamp = timestamp
+							found = true
 						}
 						return nil
 					})
